@@ -330,7 +330,7 @@ func checkWire(c *Case, b hotline.AccessBitmap) {
 
 func init() {
 	props["C16"] = func(x *Ctx) {
-		x.rule = "bitmaps: every single bit 0..63, every pair of the 40 defined privileges (780), random (uniform / sparse / dense / defined-only / undefined positions forced); each goes through the real yaml.v3 + MarshalYAML/UnmarshalYAML in both storage formats (named map, legacy numeric array) and, at account level, through NewYAMLAccountManager incl. migration and a restart; single bits and a random sample also through a real login (transaction 354 field 110) and get-user. non-trivial = non-zero bitmap that completed the round trip; distinct = distinct (level, bitmap)"
+		x.rule = "bitmaps: every single bit 0..63, every pair of the 40 defined privileges (780), random (uniform / sparse / dense / defined-only / undefined positions forced); each goes through the real yaml.v3 + MarshalYAML/UnmarshalYAML in both storage formats (named map, legacy numeric array) and, at account level, through NewYAMLAccountManager incl. migration and a restart; single bits and a random sample also through a real login (transaction 354 field 110) and get-user; set-user on an account with 1..3 live sessions (354 to each session = the new raw bytes = memory = disk = authorization); sequences of creates / updates of several accounts through the account manager followed by a restart. non-trivial = non-zero bitmap that completed the round trip; distinct = distinct (level, bitmap)"
 		x.assume = []string{
 			"gopkg.in/yaml.v3 maps a struct of bools to a key/value mapping and back (exercised on every case, not proved)",
 			"documented account-file names of the privileges: lean/MobiusModel/Spec/Governing.lean accessYamlNames (hand-written)",
@@ -486,6 +486,160 @@ func init() {
 				c.Nontrivial(fmt.Sprint("legacy:", vals))
 			}
 			c.Dist(fmt.Sprintf("document/legacy-len-%d-%s", n, st))
+		}})
+		// an administrator's set-user while the edited user is logged in: the user-access transaction (354) sent to
+		// every session of that account must carry the NEW bitmap's raw 8 bytes — the bytes the account now has in
+		// memory, on disk and in authorization decisions
+		x.Add(&Family{Name: "set-user-wire", Quick: 300, Thor: 6000, Run: func(c *Case) {
+			r := c.R
+			b0 := hotline.AccessBitmap(maskDefined(randBitmap(r)))
+			b1 := hotline.AccessBitmap(maskDefined(randBitmap(r)))
+			switch r.Intn(4) {
+			case 0: // one privilege granted
+				b1 = hotline.AccessBitmap(withBit(b0, definedPrivs[r.Intn(40)]))
+			case 1: // one privilege revoked
+				b1 = hotline.AccessBitmap(withoutBit(b0, definedPrivs[r.Intn(40)]))
+			}
+			ts, err := newTS(TSOpt{Direct: true, Accounts: []AcctSpec{
+				{Login: "u", Name: "u", Password: "", Access: b0},
+				{Login: "admin", Name: "admin", Password: "", Access: allOnes()},
+			}})
+			if err != nil {
+				c.Disagree("fixture", "test server could not be built")
+				return
+			}
+			defer ts.Close()
+			n := 1 + r.Intn(3)
+			var sess []*hotline.ClientConn
+			for i := 0; i < n; i++ {
+				cc, _ := ts.DirectClient("u", []byte("u"), fmt.Sprintf("10.3.3.%d:1", i+1))
+				sess = append(sess, cc)
+			}
+			ad, _ := ts.DirectClient("admin", []byte("admin"), "10.0.0.2:1")
+			c.Note("before", bmHex(b0))
+			c.Note("after", bmHex(b1))
+			c.Note("sessions", n)
+			res, queued, pan := ts.Call(ad, mkTran(hotline.TranSetUser, 5, fld(hotline.FieldUserLogin, hotline.EncodeString([]byte("u"))),
+				fld(hotline.FieldUserName, []byte("u")), fld(hotline.FieldUserPassword, []byte{0}), fld(hotline.FieldUserAccess, b1[:])))
+			if pan != nil {
+				c.Note("panic", fmt.Sprint(pan))
+				c.Violation("set-user-panic", "set-user panicked")
+				return
+			}
+			mem := ts.Acct.Get("u")
+			if mem == nil || mem.Access != b1 {
+				c.Violation("set-user-memory", "after set-user the account in memory does not hold the requested bitmap")
+				return
+			}
+			if disk, err := readAccountFile(ts.Users, "u"); err != nil || disk.Access != b1 {
+				c.Violation("set-user-disk", "after set-user the account file does not hold the requested privileges")
+			}
+			for i, s := range sess {
+				var got []byte
+				found := false
+				for _, t := range append(append([]hotline.Transaction{}, res...), queued...) {
+					if t.ClientID == s.ID && t.Type == hotline.TranUserAccess {
+						for _, f := range t.Fields {
+							if f.Type == hotline.FieldUserAccess {
+								got, found = f.Data, true
+							}
+						}
+					}
+				}
+				c.Note("session", i+1)
+				if !found {
+					c.Violation("set-user-wire-missing", fmt.Sprintf("session #%d of the edited account was not sent its new user-access field", i+1))
+					continue
+				}
+				if !bytes.Equal(got, b1[:]) {
+					c.Note("wire", hx(got))
+					c.Violation("set-user-wire", fmt.Sprintf("the user-access field sent to session #%d after set-user is not the account's new raw 8 bytes", i+1))
+				}
+				for p := 0; p < 64; p++ {
+					if s.Authorize(p) != bitOf(b1, p) {
+						c.Note("privilege", p)
+						c.Violation("set-user-session", fmt.Sprintf("session #%d decides privilege %d differently from the account's new bitmap", i+1, p))
+						break
+					}
+				}
+			}
+			c.Corr("set-user-wire-model", bmHex(mem.Access), c.AskS("wire", bmHex(b1)), false)
+			c.Dist(fmt.Sprintf("set-user-wire/sessions-%d", n))
+			c.Nontrivial("suw:" + bmHex(b0) + ":" + bmHex(b1) + fmt.Sprint(n))
+		}})
+		// sequences of account writes through the real account manager (create A, then writes of OTHER accounts,
+		// updates, more creates), then a restart: every account loads with the privileges it was saved with
+		x.Add(&Family{Name: "write-sequence-reload", Quick: 300, Thor: 6000, Run: func(c *Case) {
+			r := c.R
+			dir := tmpDir("c16seq")
+			defer os.RemoveAll(dir)
+			seed, _ := accountFileNamed("seed", bmOf(2))
+			os.WriteFile(filepath.Join(dir, "seed.yaml"), seed, 0644)
+			am, err := loadAccountsDir(dir)
+			if err != nil {
+				c.Disagree("fixture", "account directory could not be loaded")
+				return
+			}
+			want := map[string]hotline.AccessBitmap{"seed": bmOf(2)}
+			var logins []string
+			var ops []string
+			steps := 2 + r.Intn(6)
+			for i := 0; i < steps; i++ {
+				b := hotline.AccessBitmap(maskDefined(randBitmap(r)))
+				if len(logins) == 0 || r.Chance(55) {
+					l := fmt.Sprintf("acct%d", len(logins))
+					if err := am.Create(hotline.Account{Login: l, Name: l, Password: "x", Access: b}); err != nil {
+						c.Note("err", err.Error())
+						c.Violation("create-failed", "creating a fresh account failed")
+						return
+					}
+					logins = append(logins, l)
+					want[l] = b
+					ops = append(ops, "create "+l+" "+bmHex(b))
+				} else {
+					l := logins[r.Intn(len(logins))]
+					if r.Chance(30) {
+						l = "seed"
+					}
+					a := am.Get(l)
+					a.Access = b
+					if err := am.Update(*a, l); err != nil {
+						c.Note("err", err.Error())
+						c.Violation("update-failed", "updating an account failed")
+						return
+					}
+					want[l] = b
+					ops = append(ops, "update "+l+" "+bmHex(b))
+				}
+			}
+			c.Note("operations", ops)
+			am2, err := loadAccountsDir(dir)
+			if err != nil {
+				c.Note("err", err.Error())
+				c.Violation("account-reload-failed", "the account directory cannot be loaded after a sequence of creates / updates")
+				return
+			}
+			for l, b := range want {
+				a := am2.Get(l)
+				if a == nil {
+					c.Note("login", l)
+					c.Violation("account-lost-after-reload", "an account saved through the account manager is missing after a restart")
+					continue
+				}
+				if a.Access != b {
+					c.Note("login", l)
+					c.Note("saved", bmHex(b))
+					c.Note("loaded", bmHex(a.Access))
+					c.Violation("account-changed-after-reload", "an account loads with other privileges than it was saved with")
+				}
+			}
+			if len(am2.List()) != len(want) {
+				c.Note("loaded_accounts", len(am2.List()))
+				c.Note("saved_accounts", len(want))
+				c.Violation("account-count-after-reload", "the number of accounts after a restart differs from the number saved")
+			}
+			c.Dist(fmt.Sprintf("write-sequence/steps-%d", steps))
+			c.Nontrivial(strings.Join(ops, ";"))
 		}})
 		x.Add(&Family{Name: "wire-field", Quick: 90, Thor: 400, Run: func(c *Case) {
 			var b hotline.AccessBitmap
